@@ -567,14 +567,21 @@ impl<'a> From<&'a Ident> for Dependency<'a> {
 ///   match (required for cases where a variable from a parent scope is copied to a separate local variable with the same name).
 /// * Succeed if `supplied.type == dependency.type`
 pub(crate) fn get_net_dependencies(ast_item: &dyn Dependencies, is_scope: bool) -> Vec<Dependency> {
-    let supplies = ast_item.supplies();
-    let dependencies = ast_item.dependencies();
+    subtract_supplied(ast_item.dependencies(), &ast_item.supplies(), is_scope)
+}
 
+/// The part of [`get_net_dependencies`] that does the filtering, for AST nodes whose supplies do not
+/// reach all of their dependencies (a name only satisfies what comes after its declaration).
+pub(crate) fn subtract_supplied<'a>(
+    dependencies: Vec<Dependency<'a>>,
+    supplies: &[Dependency],
+    is_scope: bool,
+) -> Vec<Dependency<'a>> {
     let mut result: Vec<Dependency> = Vec::with_capacity(dependencies.len());
 
     // For now, this is O(n^2) :(
     'dependency_loop: for mut dependency in dependencies {
-        for supplied in &supplies {
+        for supplied in supplies {
             if supplied
                 .eq_allow_callbacks(&dependency)
                 .expect("idents do not have types")
